@@ -21,8 +21,18 @@ func init() {
 				Run: ruleAbsClampAdapters},
 			{ID: "C19.tail-cleared", Floor: 3, Clause: "RemoveUnordered and UniqueInPlace clear the vacated tail on every path; MergeSlices truncates out to out[:0] before appending (documented aliasing effect)",
 				Run: ruleTailCleared},
+			{ID: "C19.param-effects", Floor: 40, Clause: "no exported helper of xslices, xsort, xmaps, xmath, xerrors, xrand writes through a slice / map argument (stores, map updates, copy/append/clear/delete, sort and slices.* writers, module callees, closures - interprocedural) unless its documentation says it works in place (frozen table of 18 documented writers): an undocumented aliasing effect such as Compact or Intersection losing its Clone is reported",
+				Run: ruleParamEffects},
+			{ID: "C19.permutation-writes", Floor: 6, Clause: "helpers that rearrange a slice in place without changing its length (Partition, Reverse, the Shuffle callback) store elements of the slice into the slice only as halves of a swap, so the result is a permutation of the input",
+				Run: rulePermutationWrites},
+			{ID: "C19.shrink-capacity", Floor: 2, Clause: "every value Shrink returns has a capacity statically bounded by len(s)+n: the argument under the guard cap(s) <= len(s)+n, or a cut of a make() whose capacity operand is len(s)+n; never the result of append or an append-based helper",
+				Run: ruleShrinkCapacity},
+			{ID: "C19.runs-adjacent", Floor: 3, Clause: "Runs: each run appended in the loop ends exactly where the next one starts on every path into the loop (edge-by-edge induction over the loop-header phis), the last run is s[lo:] and is appended whenever s is non-empty",
+				Run: ruleRunsAdjacent},
+			{ID: "C19.sample-bounds", Floor: 2, Clause: "rSample / rSampleSlice store into the reservoir only where next < n (resp. len(a)), slot and position coming from one sampler.Next call",
+				Run: ruleSampleBounds},
 		},
-		NotCovered: []string{"value-level results of Partition, Runs, Chunk, Shrink, Search, Merge, MinK and the xmaps set algebra", "sampling uniformity and Shuffle being a permutation (statistical / value-level)"},
+		NotCovered: []string{"value-level results of Partition, Chunk, Search, Merge, MinK and the xmaps set algebra (beyond: inputs not written, swaps only, capacity bound, run adjacency)", "sampling uniformity (statistical)", "writes through slices handed to unknown function values"},
 	})
 }
 
